@@ -44,3 +44,18 @@ package aggregations
 //@   site call os.Open #1:
 //@     assert [lookup-file-opened-only-below-the-lookups-directory] uf("confined", bool, arg0)
 //@ end
+
+// C06 (stats does not depend on the order in which its input arrives): in
+// min(eval(..)) / max(eval(..)) a NUMBER always wins over a non-numeric string,
+// in whichever order the two reach the running result — after an update with a
+// numeric value the running result is numeric.  Ghost evalNumeric: the value evaluated for this row is
+// numeric (second evaluation site: the path with fields).
+//@ ghostdecl evalNumeric int
+//@ func PerformEvalAggForMinOrMax
+//@   props C06
+//@   assumecalleerequires
+//@   ghostinit ghost(0, "evalNumeric") == 0
+//@   site callret GetFloatValueAfterEvaluation #2:
+//@     ghostset ghost(0, "evalNumeric") = ite(result2 && result3 == nil, 1, 0)
+//@   ensures [after-a-numeric-value-the-running-result-is-numeric] implies(result1 == nil && ghost(0, "evalNumeric") == 1, result0.Dtype == sutils.SS_DT_FLOAT)
+//@ end
